@@ -38,8 +38,8 @@ let rec parse_val (toks : ostring list ref) : value =
     | 'I' -> (match split_colon body with [k; n] -> VGoInt (kind_of_string k, z_of_dec n) | _ -> failwith "I")
     | 'G' -> VGoFloat (bytes_of_hex body)
     | 'M' -> (match split_colon body with [ns; off] -> VTime { t_ns = z_of_dec ns; t_off = z_of_dec off } | _ -> failwith "M")
-    | 'A' -> let n = int_of_string body in VArr (List.init n (fun _ -> parse_val toks))
-    | 'O' ->
+    | 'A' | 'Z' -> let n = int_of_string body in VArr (List.init n (fun _ -> parse_val toks))
+    | 'O' | 'Y' ->
       let n = int_of_string body in
       VMap (List.init n (fun _ ->
           let k = (match !toks with k :: r -> toks := r; k | [] -> failwith "O key") in
@@ -49,6 +49,16 @@ let rec parse_val (toks : ostring list ref) : value =
       let n = int_of_string body in
       VMap (List.init n (fun _ ->
           let k = (match !toks with k :: r -> toks := r; k | [] -> failwith "Q key") in
+          let kb = bytes_of_hex (String.sub k 1 (String.length k - 1)) in
+          let v = parse_val toks in (kb, v)))
+    | 'R' ->
+      (* R<id>:<n> S<name> <value> ... : a struct by its selectable fields *)
+      (* R<palette entry>.<type number>:<n>; the model's struct id is the type number *)
+      let (id, n) = (match String.split_on_char ':' body with
+          | [a; b] -> ((match String.split_on_char '.' a with [_; tid] -> tid | _ -> a), int_of_string b)
+          | _ -> failwith "R") in
+      VStruct (z_of_dec id, List.init n (fun _ ->
+          let k = (match !toks with k :: r -> toks := r; k | [] -> failwith "R key") in
           let kb = bytes_of_hex (String.sub k 1 (String.length k - 1)) in
           let v = parse_val toks in (kb, v)))
     | 'H' -> VFunc (z_of_dec body)
@@ -93,11 +103,15 @@ let rec print_val (b : Buffer.t) (v : value) : unit =
   | VNilPtr -> add "P"
   | VCtx -> add "C"
   | VOpaque _ -> add "X"
+  | VStruct (id, _) -> add ("R" ^ dec_string_of_z id)
 
 let wire_of_value (v : value) : ostring =
   let b = Buffer.create 64 in print_val b v; Buffer.contents b
 
 let rec type_of_string (s : ostring) : gotype =
+  (* "N<t>": a named (defined) type with underlying type t - the bridge converts to the declared type, whose
+     behaviour is that of its underlying type *)
+  if String.length s > 1 && s.[0] = 'N' then type_of_string (String.sub s 1 (String.length s - 1)) else
   match s with
   | "s" -> TString | "b" -> TBool | "a" -> TIface | "d" -> TDec | "t" -> TTime
   | "f32" -> TFloat true | "f64" -> TFloat false
